@@ -46,7 +46,14 @@ class Command(SerializableMixin, DictableMixin):
         self.argument = match.group(2).decode('utf-8', errors='surrogateescape')
 
     def to_bytes(self):
-        return '{0} {1}\r\n'.format(self.name, self.argument).encode(
+        line = '{0} {1}'.format(self.name, self.argument)
+
+        if re.search(r'[\r\n\x00]', line):
+            # A command is exactly one line. Anything else (for example
+            # a percent-decoded URL path) would inject further commands.
+            raise ProtocolError('Command contains a line break or NUL.')
+
+        return '{0}\r\n'.format(line).encode(
             'utf-8', errors='surrogateescape')
 
     def to_dict(self):
